@@ -59,9 +59,9 @@ func (db *DB) VerifC10FinalizeBatchSnapshot(id order.BatchID) error {
 func (db *DB) VerifC10RawAccount(key []byte) []byte {
 	var res []byte
 	_ = db.View(func(tx *bbolt.Tx) error {
-		b, err := getBucket(tx, accountBucketKey)
-		if err != nil {
-			return err
+		b := tx.Bucket(accountBucketKey)
+		if b == nil {
+			return nil
 		}
 		if v := b.Get(key); v != nil {
 			res = append([]byte{}, v...)
@@ -75,9 +75,9 @@ func (db *DB) VerifC10RawAccount(key []byte) []byte {
 // absent) and whether the bucket exists.
 func (db *DB) VerifC10RawOrder(nonce order.Nonce) (base, minUnits, tlvData, tier []byte, ok bool) {
 	_ = db.View(func(tx *bbolt.Tx) error {
-		root, err := getBucket(tx, ordersBucketKey)
-		if err != nil {
-			return err
+		root := tx.Bucket(ordersBucketKey)
+		if root == nil {
+			return nil
 		}
 		base, minUnits, tlvData, tier, ok = verifC10RawOrderIn(root, nonce)
 		return nil
@@ -107,9 +107,9 @@ func verifC10RawOrderIn(root *bbolt.Bucket, nonce order.Nonce) (base, minUnits, 
 // VerifC10RawBidTemplate returns the raw values of a sidecar bid template.
 func (db *DB) VerifC10RawBidTemplate(nonce order.Nonce) (base, minUnits, tlvData, tier []byte, ok bool) {
 	_ = db.View(func(tx *bbolt.Tx) error {
-		sc, err := getBucket(tx, sidecarsBucketKey)
-		if err != nil {
-			return err
+		sc := tx.Bucket(sidecarsBucketKey)
+		if sc == nil {
+			return nil
 		}
 		bb := sc.Bucket(bidTemplateBucket)
 		if bb == nil {
@@ -125,9 +125,9 @@ func (db *DB) VerifC10RawBidTemplate(nonce order.Nonce) (base, minUnits, tlvData
 func (db *DB) VerifC10RawPendingSnapshot() []byte {
 	var res []byte
 	_ = db.View(func(tx *bbolt.Tx) error {
-		b, err := getBucket(tx, batchSnapshotBucketKey)
-		if err != nil {
-			return err
+		b := tx.Bucket(batchSnapshotBucketKey)
+		if b == nil {
+			return nil
 		}
 		if v := b.Get(batchSnapshotPendingKey); v != nil {
 			res = append([]byte{}, v...)
@@ -141,8 +141,11 @@ func (db *DB) VerifC10RawPendingSnapshot() []byte {
 func (db *DB) VerifC10RawSnapshot(id order.BatchID) []byte {
 	var res []byte
 	_ = db.View(func(tx *bbolt.Tx) error {
+<<<<<<< HEAD
 		// navigate the buckets directly (independent of the signature of
 		// the unexported helper getSnapshotBuckets)
+=======
+>>>>>>> wip-store
 		top := tx.Bucket(batchSnapshotBucketKey)
 		if top == nil {
 			return nil
@@ -172,9 +175,9 @@ func (db *DB) VerifC10RawSnapshot(id order.BatchID) []byte {
 // pending-batch orders bucket.
 func (db *DB) VerifC10RawPendingOrder(nonce order.Nonce) (base, minUnits, tlvData, tier []byte, ok bool) {
 	_ = db.View(func(tx *bbolt.Tx) error {
-		bucket, err := getBucket(tx, batchBucketKey)
-		if err != nil {
-			return err
+		bucket := tx.Bucket(batchBucketKey)
+		if bucket == nil {
+			return nil
 		}
 		pending := bucket.Bucket(pendingBatchOrdersBucketKey)
 		if pending == nil {
